@@ -27,6 +27,7 @@ def corr(ctx, res, name, label, idxfile, prefix):
 
 def run(ctx):
     ctx.audit("Props.C09", ["c09_sealed_inert", "c09_only_right_pass", "c09_wrong_pass_unchanged", "c09_no_chain_unchanged",
+                            "c09_refused_unchanged", "c09_refused_still_sealed", "c09_accepted_iff", "c09_old_refused_changes_state_refuted",
                             "c09_once_sequential", "c09_once", "c09_no_half_init", "c09_unseal_is_its_body", "c09_published"])
     gen = ctx.extract()
     files = ["kmd/common.go", "kmd/creds.go", "kmd/c09.go", os.path.join(ctx.work, "gen", "mux_gen.go")]
